@@ -13,7 +13,7 @@
    documented one have the same SET of rows (ConfTie: equal after sorting) and
    no name can match two rows ([uniq_match], computed), hence they agree on all
    lookups whatever the order of the rows (Conf/ConfRows.v). *)
-From Robsd Require Import Conf.ConfDefs Conf.ConfSpec Conf.DocSpec Conf.ConfOracle Conf.ConfTie Conf.ConfDiag Conf.ConfRows
+From Robsd Require Import Conf.ConfDefs Conf.ConfSpec Conf.DocSpec Conf.DocExceptions Conf.ConfOracle Conf.ConfTie Conf.ConfDiag Conf.ConfRows
   Conf.ConfInv.
 From RobsdGen Require Import Gen_Conf.
 Local Open Scope N_scope.
@@ -280,8 +280,8 @@ Proof.
   - cbn [tt_lookup]. rewrite IH. reflexivity.
 Qed.
 
-Lemma doc_tokens_filter :
-  doc_tokens = filter (fun r => match tr_key r with [] => false | _ => true end) token_table.
+Lemma tokens_as_built_filter :
+  tokens_as_built = filter (fun r => match tr_key r with [] => false | _ => true end) token_table.
 Proof. vm_compute. reflexivity. Qed.
 
 (* the general recipe: same mode, tokens filtered, same set of rows without ambiguity, same scalars *)
@@ -304,59 +304,78 @@ Qed.
 Lemma uniq_match_gen m : uniq_match (t_grammar (tables_of m)) = true.
 Proof. destruct m; vm_compute; reflexivity. Qed.
 
-(* ---------------------------------------------------------------- the four documented modes *)
-Lemma tables_equiv_doc m : m <> CANVAS -> tables_equiv (tables_of m) (doc_tables m).
+(* ---------------------------------------------------------------- all five modes: the documented tables with the listed exceptions *)
+(* The switches of config_default_rdomain and of the parse-time diagnostics are the SAME on both sides ([doc_tables_as_built]
+   takes them from the source): what they should be is the subject of C08_rdomain_cycle_holds_now and
+   C08_reject_names_file_holds_now, not of acceptance. *)
+Lemma tables_equiv_as_built m : tables_equiv (tables_of m) (doc_tables_as_built m).
 Proof.
-  intros Hm. apply tables_equiv_same_rows.
+  apply tables_equiv_same_rows.
   - destruct m; reflexivity.
-  - rewrite token_table_same. exact doc_tokens_filter.
-  - apply same_rows_canon. exact (tables_match_docs_non_canvas m Hm).
+  - rewrite token_table_same. exact tokens_as_built_filter.
+  - apply same_rows_canon. exact (tables_match_as_built m).
   - apply uniq_match_gen.
   - destruct m; reflexivity.
   - destruct m; reflexivity.
-  - destruct m; reflexivity.
-  - destruct m; reflexivity.
-  - destruct m; reflexivity.
-  - destruct m; reflexivity.
-  - destruct m; reflexivity.
+  - reflexivity.
+  - reflexivity.
+  - reflexivity.
+  - reflexivity.
+  - reflexivity.
 Qed.
 
-(* THE headline: the implementation accepts a text iff it conforms to the documented grammar,
-   and then both define the same dictionary *)
-Theorem accept_iff_documented E m text c : m <> CANVAS ->
-  (config_parse E (tables_of m) text = Accepted c <-> text_conforms E (doc_tables m) text c).
-Proof.
-  intros Hm. rewrite (accept_equiv E _ _ text c (tables_equiv_doc m Hm)). apply config_parse_iff.
-Qed.
+(* THE headline, as far as it holds: the implementation accepts a text iff it conforms to the documented grammar WITH the
+   exceptions of Conf/DocExceptions.v applied, and then both define the same dictionary *)
+Theorem accept_iff_as_built E m text c :
+  config_parse E (tables_of m) text = Accepted c <-> text_conforms E (doc_tables_as_built m) text c.
+Proof. rewrite (accept_equiv E _ _ text c (tables_equiv_as_built m)). apply config_parse_iff. Qed.
 
-(* ---------------------------------------------------------------- canvas: the documented table plus one row *)
+(* ---------------------------------------------------------------- the whole command on an accepted text *)
+Section SimCmd.
+  Variable E : env.
+  Variables T T' : tables.
+  Hypothesis HE : tables_equiv T T'.
+  Hypothesis Hend : t_canvas_end T = t_canvas_end T'.
+  Hypothesis Hargv : t_argv T = t_argv T'.
+
+  Lemma after_parse_sim c : after_parse T c = after_parse T' c.
+  Proof. unfold after_parse, script_argv. rewrite (ts_mode _ _ (te_sim _ _ HE)), Hend, Hargv. reflexivity. Qed.
+
+  Lemma append_vars_sim vs : forall c, append_vars T c vs = append_vars T' c vs.
+  Proof.
+    induction vs as [|v vs IH]; intros c; [reflexivity|]. cbn [append_vars]. unfold append_var.
+    destruct (split_eq (cstr v)) as [[name val]|]; [|reflexivity]. rewrite (te_gfk _ _ HE name).
+    destruct (grammar_for_keyword (t_grammar T') name); [reflexivity|]. apply IH.
+  Qed.
+
+  Lemma interp_lines_st_sim ls : forall c lno, interp_lines_st E T c lno ls = interp_lines_st E T' c lno ls.
+  Proof.
+    induction ls as [|l ls IH]; intros c lno; [reflexivity|]. cbn [interp_lines_st].
+    rewrite (ts_depth _ _ (te_sim _ _ HE)).
+    rewrite (sinterp_ext false _ _ (lookup1_sim E T T' (te_sim _ _ HE) false)).
+    destruct (sinterp (pred (t_depth_limit T')) false (lookup1 E T' false) c l) as [c1 r]. destruct r as [o|e]; [|reflexivity].
+    rewrite IH. reflexivity.
+  Qed.
+
+  (* exit status, standard output, every diagnostic and the trap flag of robsd-config are those of the other table *)
+  Theorem robsd_config_accepted_sim text c vars stdin :
+    config_parse E T text = Accepted c -> robsd_config E T text vars stdin = robsd_config E T' text vars stdin.
+  Proof.
+    intros H. pose proof (proj1 (accept_equiv E T T' text c HE) H) as H'. unfold robsd_config. rewrite H, H'.
+    rewrite after_parse_sim, append_vars_sim. destruct (append_vars T' (after_parse T' c) vars) as [c1 ok].
+    destruct ok; [|reflexivity]. rewrite interp_lines_st_sim. reflexivity.
+  Qed.
+End SimCmd.
+
+(* VALUE-ORACLE REFLECTION: on an accepted configuration robsd-config (model on the regenerated tables) prints, for every
+   -v list and every template, what the reader on the documented-tables-with-exceptions prints *)
+Theorem robsd_config_as_built E m text c vars stdin :
+  config_parse E (tables_of m) text = Accepted c ->
+  robsd_config E (tables_of m) text vars stdin = robsd_config E (doc_tables_as_built m) text vars stdin.
+Proof. apply robsd_config_accepted_sim; [apply tables_equiv_as_built|reflexivity|reflexivity]. Qed.
+
+(* ---------------------------------------------------------------- helpers for statements about the documented tables *)
 Definition with_grammar (T : tables) (G : list grammar) : tables :=
   mk_tables (t_mode T) (t_tokens T) G (t_steps T) (t_argv T) (t_regress_script T) (t_canvas_end T)
             (t_rdomain_min T) (t_rdomain_max T) (t_rdomain_fixed T) (t_execdir_default T) (t_depth_limit T) (t_interp_path T)
             (t_builddir_guard T).
-
-(* what the code implements for canvas: canvas.conf.5 and, in addition, a settable required directory robsddir (D7) *)
-Definition doc_tables_canvas_as_built : tables :=
-  with_grammar (doc_tables CANVAS) (canvas_extra_row :: doc_table CANVAS).
-
-Lemma tables_equiv_canvas : tables_equiv (tables_of CANVAS) doc_tables_canvas_as_built.
-Proof.
-  apply tables_equiv_same_rows.
-  - reflexivity.
-  - exact doc_tokens_filter.
-  - intros g. rewrite <- (In_canon g (t_grammar (tables_of CANVAS))).
-    change (t_grammar (tables_of CANVAS)) with (gen_grammar CANVAS). rewrite tables_match_docs_canvas_partial.
-    rewrite In_insert_row. simpl. intuition.
-  - apply uniq_match_gen.
-  - reflexivity.
-  - reflexivity.
-  - reflexivity.
-  - reflexivity.
-  - reflexivity.
-  - reflexivity.
-  - reflexivity.
-Qed.
-
-Theorem accept_iff_documented_canvas_as_built E text c :
-  config_parse E (tables_of CANVAS) text = Accepted c <-> text_conforms E doc_tables_canvas_as_built text c.
-Proof. rewrite (accept_equiv E _ _ text c tables_equiv_canvas). apply config_parse_iff. Qed.
